@@ -1,5 +1,5 @@
 # replay of a bounded stand-in violation (C16): re-run native/c16_states.py
 import sys
-print('bosonic n=3 pure=True gaussian: reduced_dm([2]) has shape (8, 8, 8, 8, 8, 8), expected two indices per mode')
+print('n=2 pure=False cat-complex: quad_expectation(1,0.0) = [0.52073, 0.75012] on bosonic, [0.52073, 1.89214] on fock')
 print('REPLAY-VIOLATION')
 sys.exit(1)
